@@ -1,4 +1,122 @@
-import PysnarkModel.Model.Prog
+import PysnarkModel.Lemmas.FxpValues
+import PysnarkModel.Spec.R1CS
+/-!
+# C14 — fixed-point operations equal exact scaled-integer arithmetic
+
+At resolution `r = s.resolution` the fixed-point number `v` is represented by the integer `v·2^r`
+(`Val.fxp x`, `x.value` is the representation).  `rep r b` is the representation of an operand `b`
+of any accepted kind: `c·2^r` for the int `c`, `int(f·2^r)` (truncation, `scaleFlt`) for the float
+`f = m/2^e`, `y.value·2^r` for an integer or boolean secret, `y.value` for a fixed-point secret.
+
+Every statement is: if the model function returns `.ok`, the representation of the result is the
+stated integer expression of the representations of the operands (`Int.fdiv` = floor division,
+`Int.fmod` = Python's `%`).  Hypotheses `Plain s` (no guard, errors not suppressed) appear only
+where the code consults them.
+-/
 namespace Pysnark
-example : True := trivial
+
+section
+variable {s s' : St} {x : LinComb} {o v : Val}
+
+/-- `x + other` : the sum of the representations (exact) -/
+theorem C14_add_exact (h : addXV x o s = .ok (v, s')) :
+    ∃ z, v = .fxp z ∧ z.value = x.value + rep s.resolution o := (addXV_val h).2
+
+/-- `x - other` : the difference of the representations (exact) -/
+theorem C14_sub_exact (h : subV (.fxp x) o s = .ok (v, s')) :
+    ∃ z, v = .fxp z ∧ z.value = x.value - rep s.resolution o := (subXV_val h).2
+
+/-- `-x` -/
+theorem C14_neg_exact (h : negV (.fxp x) s = .ok (v, s')) :
+    ∃ z, v = .fxp z ∧ z.value = -x.value := (negXV_val h).2
+
+/-- `x * other`: exact for an integer (plain or secret) factor; `⌊a·b / 2^r⌋` on representations
+for a fixed-point or float factor -/
+theorem C14_mul_exact (h : mulXV x o s = .ok (v, s')) :
+    ∃ z, v = .fxp z ∧ z.value = mulXSem s.resolution x.value o := (mulXV_val h).2
+
+theorem C14_mul_cases (a : Int) (r : Nat) (c : Int) (y : LinComb) (m : Int) (e : Nat) :
+    mulXSem r a (.int c) = a * c ∧ mulXSem r a (.lc y) = a * y.value ∧
+    mulXSem r a (.fxp y) = Int.fdiv (a * y.value) (2 ^ r) ∧
+    mulXSem r a (.flt m e) = Int.fdiv (a * scaleFlt m e r) (2 ^ r) := ⟨rfl, rfl, rfl, rfl⟩
+
+/-- `x / other`: `⌊a·2^r / b⌋` on representations (for an int divisor `c`: `⌊a / c⌋`) -/
+theorem C14_truediv_exact {q : LinComb} (h : truedivXV x o s = .ok (some q, s')) :
+    q.value = truedivXSem s.resolution x.value o := (truedivXV_val h).2
+
+theorem C14_truediv_cases (a : Int) (r : Nat) (c : Int) (y : LinComb) (m : Int) (e : Nat) :
+    truedivXSem r a (.int c) = Int.fdiv a c ∧
+    truedivXSem r a (.int c) = Int.fdiv (a * 2 ^ r) (c * 2 ^ r) ∧
+    truedivXSem r a (.lc y) = Int.fdiv (a * 2 ^ r) (y.value * 2 ^ r) ∧
+    truedivXSem r a (.fxp y) = Int.fdiv (a * 2 ^ r) y.value ∧
+    truedivXSem r a (.flt m e) = Int.fdiv (a * 2 ^ r) (scaleFlt m e r) :=
+  ⟨rfl, (fdiv_mul_pow a c r).symm, rfl, rfl, rfl⟩
+
+/-- `divmod(x, other)`, `//`, `%`: the quotient is the floor quotient of the representations,
+rescaled; the remainder is Python's `%` of the representations -/
+theorem C14_divmod_exact {qr : LinComb × LinComb} (h : divmodXV x o s = .ok (some qr, s')) :
+    qr.1.value = Int.fdiv x.value (rep s.resolution o) * 2 ^ s.resolution ∧
+      qr.2.value = Int.fmod x.value (rep s.resolution o) := (divmodXV_val h).2
+
+/-- comparisons: 0/1 according to the order of the representations … -/
+theorem C14_cmp_exact {op : Cmp} (hp : Plain s) (h : cmpV op (.fxp x) o s = .ok (v, s')) :
+    ∃ r, v = .lcb r ∧ r.value = cmpSem op x.value (rep s.resolution o) :=
+  (cmpXV_val hp.guard hp.ign h).2
+
+/-- … which is the order of the represented numbers -/
+theorem C14_cmp_represented (r : Nat) (a b : Int) :
+    (a < b ↔ (a : ℚ) / 2 ^ r < (b : ℚ) / 2 ^ r) ∧ (a ≤ b ↔ (a : ℚ) / 2 ^ r ≤ (b : ℚ) / 2 ^ r) ∧
+    (a = b ↔ (a : ℚ) / 2 ^ r = (b : ℚ) / 2 ^ r) := cmp_rep_iff r a b
+
+/-- `x.val()` returns the float `representation / 2^r` (exactly, below `2^53`) -/
+theorem C14_val_exact {args : List Val} (h : callMeth .val (.fxp x) args s = .ok (v, s')) :
+    v = .flt x.value s.resolution ∧ x.value.natAbs < 2 ^ 53 := (valX_val h).2
+
+theorem C14_val_total {args : List Val} (hp : Plain s) (hlt : x.value.natAbs < 2 ^ 53) :
+    ∃ s', callMeth .val (.fxp x) args s = .ok (.flt x.value s.resolution, s') :=
+  valX_total hp.guard hlt
+
+/-- `PrivValFxp(literal)` -/
+theorem C14_mk_exact {lit : Val} (h : mkVal .privx lit s = .ok (v, s')) :
+    ∃ x, v = .fxp x ∧ x.value = rep s.resolution lit := by
+  obtain ⟨-, x, hv, hx, -⟩ := mkVal_privx_val h
+  exact ⟨x, hv, hx⟩
+
+theorem C14_rep_cases (r : Nat) (c : Int) (m : Int) (e : Nat) (y : LinComb) :
+    rep r (.int c) = c * 2 ^ r ∧ rep r (.flt m e) = scaleFlt m e r ∧ rep r (.lc y) = y.value * 2 ^ r ∧
+    rep r (.lcb y) = y.value * 2 ^ r ∧ rep r (.fxp y) = y.value := ⟨rfl, rfl, rfl, rfl, rfl⟩
+
+/-- RECORDED DEVIATION (C14-lincomb-lt-fxp), general form: with an integer secret `a` on the LEFT,
+`a < x` is computed as `(a+1)·2^r ≤ rep x`, not as `a·2^r < rep x` -/
+theorem C14_lincomb_lt_fxp_computes {a : LinComb} (hp : Plain s)
+    (h : cmpV .lt (.lc a) (.fxp x) s = .ok (v, s')) :
+    ∃ r, v = .lcb r ∧ r.value = if (a.value + 1) * 2 ^ s.resolution ≤ x.value then 1 else 0 :=
+  cmpLV_lt_fxp_val hp.guard hp.ign h
+end
+
+/-- closed counterexample: resolution 8, `PrivVal(2) < PrivValFxp(2.5)` (representation 640)
+evaluates to 0 although `2 < 2.5` -/
+theorem C14_cex_lincomb_lt_fxp :
+    (match (do let a ← privVal 2; let x ← mkVal .privx (.flt 5 1); cmpV .lt (.lc a) x) (St.init 97 8 8) with
+     | .ok (.lcb r, _) => r.value == 0 | _ => false) = true := by decide +kernel
+
+/-- the same comparison written with the fixed-point value on the left is right -/
+theorem C14_cex_lincomb_lt_fxp_mirror :
+    (match (do let a ← privVal 2; let x ← mkVal .privx (.flt 5 1); cmpV .gt x (.lc a)) (St.init 97 8 8) with
+     | .ok (.lcb r, _) => r.value == 1 | _ => false) = true := by decide +kernel
+
+/-! ## non-vacuity -/
+/-- `2.5 * 1.5 = 3.75` (960 at resolution 8); `2.5 / 1.5 = ⌊640·256/384⌋ = 426`;
+`PrivValFxp(2.5)` is represented by 640 -/
+example :
+    (match (do let x ← mkVal .privx (.flt 5 1); let y ← mkVal .privx (.flt 3 1); mulV x y) (St.init 97 16 8) with
+     | .ok (.fxp r, _) => r.value == 960 | _ => false) = true ∧
+    (match (do let x ← mkVal .privx (.flt 5 1); let y ← mkVal .privx (.flt 3 1); truedivV x y) (St.init 97 24 8) with
+     | .ok (.fxp r, _) => r.value == 426 | _ => false) = true ∧
+    (match mkVal .privx (.flt 5 1) (St.init 97 8 8) with
+     | .ok (.fxp r, _) => r.value == 640 | _ => false) = true := by
+  refine ⟨by decide +kernel, by decide +kernel, by decide +kernel⟩
+
+example : Plain (St.init 97 8 8) := ⟨rfl, rfl⟩
+
 end Pysnark
